@@ -23,53 +23,71 @@ LEAN_SOURCES = ["LenaModel/Model/C17.lean", "LenaModel/Model/C17Sess.lean", "Len
                 "LenaModel/Props/C17Ext.lean"]
 DRIVER = "drivers/C17.lean"
 THEOREMS = [
+    # --- the theorems that carry the property -----------------------------------------------------------------
+    # Slice.run is list slicing (all start/stop/step, all finite flows); construction rejects/accepts steps
     "Lena.C17.slice_run_eq_pyslice",
     "Lena.C17.slice_rejects_bad_step",
     "Lena.C17.slice_accepts_good_step",
     "Lena.C17.pySlice_getElem?",
     "Lena.C17.islice_eq_pySlice",
     "Lena.C17.runNegative_eq_pySlice",
+    "Lena.C17.slice_run_eq_pyslice_ms",
+    "Lena.C17.slice_rejects_huge_step",
+    "Lena.C17.slice_args_run",
+    "Lena.C17.mkSliceMS_rejects_bad_step",
+    "Lena.C17.sliceOfArgs_rejects_bad_step",
+    # fill_into fills the slice; LenaStopFill only when done, exactly where, and for good
     "Lena.C17.fill_into_eq",
     "Lena.C17.stopfill_only_when_done",
+    "Lena.C17.slice_fill_into_eq",
+    "Lena.C17.slice_stopfill_only_when_done",
+    "Lena.C17.stopfill_exact",
+    "Lena.C17.stopfill_never_without_stop",
+    "Lena.C17.stopfill_persists",
+    "Lena.C17.fill_trace_eq",
+    # Reverse, CountFrom, RunningChunkBy, Chain
     "Lena.C17.reverse_spec",
-    "Lena.C17.chain_spec",
     "Lena.C17.countfrom_spec",
+    "Lena.C17.countfrom_never_stops",
     "Lena.C17.chunks_are_windows",
+    "Lena.C17.chunks_are_windows_zero",
+    "Lena.C17.chunks_are_windows_all",
     "Lena.C17.windows_spec",
-    "Lena.C17.windows_short",
-    # one instance used more than once (Model/C17Sess.lean)
+    "Lena.C17.chain_shared_conservation",
+    "Lena.C17.chain_shared_stop",
+    # generators of one instance advanced in any interleaving are independent, provided creating a generator leaves
+    # the instance as it was (the proviso is discharged by the transcription, validated by the correspondence)
     "Lena.C17.session_calls_independent",
+]
+# Structural lemmas, bridges between executable and specification-side definitions, and statements that hold by the
+# way the model is written (a model whose `run` returns the instance unchanged keeps no state): audited for axioms,
+# NOT counted as proof obligations that carry the property.  That the real elements keep no state between runs is
+# established by the correspondence check and the oracle (sessions), not by these.
+AUX_THEOREMS = [
+    "Lena.C17.chain_spec",
+    "Lena.C17.windows_short",
     "Lena.C17.session_no_generator",
     "Lena.C17.countfrom_calls_independent",
     "Lena.C17.countfrom_call_fresh",
-    "Lena.C17.countfrom_never_stops",
     "Lena.C17.slice_runs_independent",
     "Lena.C17.reverse_runs_independent",
     "Lena.C17.chunks_runs_independent",
     "Lena.C17.chain_calls_independent",
     "Lena.C17.slice_run_history_independent",
     "Lena.C17.slice_fill_ignores_runs",
-    "Lena.C17.stopfill_persists",
-    "Lena.C17.fill_trace_eq",
-    # the rest of iterators.py / RunningChunkBy (Model/C17Ext.lean, Props/C17Ext.lean)
     "Lena.C17.goodStepB_iff",
     "Lena.C17.hasNegB_iff",
     "Lena.C17.fillOutcomes_eq",
     "Lena.C17.fillValues_eq",
-    "Lena.C17.slice_run_eq_pyslice_ms",
     "Lena.C17.slice_rejects_huge",
-    "Lena.C17.slice_rejects_huge_step",
     "Lena.C17.slice_huge_deque_overflows",
     "Lena.C17.sliceOfArgs_forms",
-    "Lena.C17.slice_args_run",
     "Lena.C17.sliceEq_sound",
     "Lena.C17.countFromEq_iff",
     "Lena.C17.chainEq_iff",
     "Lena.C17.chunks_container",
-    "Lena.C17.chunks_are_windows_zero",
-    "Lena.C17.chunks_are_windows_all",
-    "Lena.C17.chain_shared_conservation",
-    "Lena.C17.chain_shared_stop",
+    "Lena.C17.mkSliceInst_nonneg",
+    "Lena.C17.slice_rejects_float_step",
 ]
 TRUSTED = [
     "Lean 4.33.0 kernel; axioms limited to propext, Classical.choice, Quot.sound (audited by #print axioms on every run)",
@@ -80,12 +98,27 @@ TRUSTED = [
     "JSON line protocol encoders (harness/props/c17.py, drivers/C17.lean)",
     "sys.maxsize == 2**63 - 1 on the machine that runs the check (asserted); the limits of itertools.islice and "
     "collections.deque(maxlen) as transcribed in Model/C17Ext.lean (mkSliceMS, dequeMaxlen), validated by the correspondence",
+    "that the real elements keep no state between runs/calls (the proviso hE of session_calls_independent; in the model "
+    "`run` returns the instance unchanged by transcription) rests on the correspondence check and the oracle over "
+    "schedules of repeated and interleaved use, not on a theorem",
+    "countFromInit / rcbInit (type checks at construction) receive isinstance(x, numbers.Number) / callable(x) from the "
+    "harness: they record the branch structure only; float steps are one constructor (StepArg.float) of the model",
+    "the elements are driven directly (run / __call__ / fill_into), not through Sequence/Split; how the framework drives "
+    "them is the business of C01/C05 and the bridge theorems",
 ]
 ASSUMPTIONS = [
     "finite flows of integers stand for finite flows of arbitrary values (the code never inspects the values)",
     "pySlice (Lean) is Python list slicing: checked against xs[a:b:s] on every case",
     "a flow is any finite iterable (lena.core.flow_to_iter): the model's list semantics must hold whether run gets an "
-    "iterator, a list, a tuple, a range or a generator; flows of different runs are different objects",
+    "iterator, a list, a tuple, a range, a generator, a deque, a dict (keys), a set/frozenset (in its iteration order), "
+    "a str, an object with only __iter__ or only __getitem__/__len__; flows of different runs are different objects; "
+    "a generator is modelled by the values it will yield (laziness and the amount of flow consumed are C02's business)",
+    "element.fill(value) called by fill_into does not raise (if it does, _index is not advanced: outside the statement)",
+    "chunk_size is a natural number (a negative one gives a plain ValueError of islice/deque at the first next, a "
+    "non-integer a TypeError: unmodelled); steps are None, int, or float - every float step (finite, inf, nan) must be "
+    "rejected with LenaValueError (oracle; model: StepArg.float); str/complex steps raise TypeError, True counts as 1: outside",
+    "values agree with the model but cost may not: next(islice(count(0), start, stop)) with stop <= start costs O(start) "
+    "in the real code (Slice(10**8, 3).fill_into takes seconds before LenaStopFill); real termination time is not modelled",
     "start and stop beyond +-sys.maxsize are outside the oracle (limits of islice/deque: LenaValueError at construction "
     "resp. OverflowError during run); they are modelled (mkSliceMS, sliceRunMS) and checked by the correspondence; the "
     "theorems about them carry the hypothesis InRange",
@@ -108,8 +141,15 @@ RULE = ("quick and thorough: exhaustive enumeration of start,stop in {None,-7..7
         "float steps, __eq__/__repr__ of Slice/CountFrom/Reverse/Chain on all pairs of a palette, type checks of "
         "CountFrom.__init__ (7x7 argument kinds, against itertools.count) and RunningChunkBy.__init__, RunningChunkBy "
         "with tuple/list/star/namedtuple/frozenset containers for chunk sizes 0..6 and lengths 0..10, CountFrom beyond 64 "
-        "bits; thorough adds 4000 random argument tuples drawn from the big values. Non-trivial: result non-empty, any "
-        "event, or an exception.")
+        "bits; thorough adds 4000 random argument tuples drawn from the big values. Review round: the fill_into families "
+        "are built with all three call forms and the model applies the None defaults; CountFrom is also called as "
+        "CountFrom(), CountFrom(a), by keyword and with step only (reference: itertools.count called the same way); "
+        "RunningChunkBy by keyword and with truthy/falsy non-bool from_iterable; flow kinds deque/dict/set/frozenset/str/"
+        "__iter__-only/__getitem__-only for a part of every family; steps inf, -inf, nan, 1e300; long inputs in both tiers "
+        "(lengths 16,17,33,64,65,129,257 x 14 index values around them x steps None,2,17; Reverse up to 1000 values; Chain "
+        "iterables up to 257; chunk sizes 15..64; sessions with flows up to 129), thorough adds 2500 log-uniform cases "
+        "(lengths to 5000, indices to 2000, steps and chunk sizes to 300). Non-trivial: result non-empty, any event, or "
+        "an exception.")
 CASE_TIMEOUT = 10
 
 
@@ -126,10 +166,12 @@ def gen_cases(ctx):
     yield from _base_cases()
     yield from _reuse_cases()
     yield from _ext_cases()
+    yield from _long_cases()
     ctx.exhaustive = True
     if ctx.tier == "thorough":
         ctx.exhaustive = False  # the random part is sampled
         yield from _random_cases(ctx.rng)
+        yield from _random_long_cases(ctx.rng)
 
 
 def _base_cases():
@@ -154,6 +196,14 @@ def _base_cases():
             for s in [None, 1, 2, 3, 4]:
                 for n in range(0, 11):
                     cases.append({"op": "fill_into", "start": a, "stop": b, "step": s, "n": n})
+    # the call forms Slice(stop) and Slice(start, stop) on the fill route (the usual ones inside a Split)
+    for b in nn:
+        for n in range(0, 11):
+            cases.append({"op": "fill_into", "start": None, "stop": b, "step": None, "n": n, "form": 1})
+    for a in nn:
+        for b in nn:
+            for n in (0, 3, 6, 10):
+                cases.append({"op": "fill_into", "start": a, "stop": b, "step": None, "n": n, "form": 2})
     for n in range(0, 11):
         cases.append({"op": "reverse", "n": n})
     for lens in itertools.product(range(0, 4), repeat=3):
@@ -162,6 +212,11 @@ def _base_cases():
     for a in (-3, 0, 5):
         for s in (-2, 0, 1, 3):
             cases.append({"op": "countfrom", "start": a, "step": s, "n": 7})
+            # the other call shapes: CountFrom(), CountFrom(a), by keyword, step only
+            cases.append({"op": "countfrom", "start": a, "step": s, "n": 7, "cf": "kw"})
+            cases.append({"op": "countfrom", "step": s, "n": 7, "cf": "kwstep"})
+        cases.append({"op": "countfrom", "start": a, "n": 7, "cf": "pos1"})
+    cases.append({"op": "countfrom", "n": 7, "cf": "none"})
     for cs in range(1, 6):
         for n in range(0, 11):
             for cont in ("tuple", "list", "star"):
@@ -180,11 +235,11 @@ def _base_cases():
     # the flow given to run is any finite iterable: a list, a tuple, a range, a generator (not only an iterator)
     for c in list(cases):
         if c["op"] == "slice" and c.get("form", 3) == 3 and "vk" not in c:
-            fk = {1: "list", 5: "list", 10: "list", 6: "range", 4: "gen", 3: "tuple"}.get(c["n"])
-            if fk:
+            for fk in {1: ("list",), 5: ("list", "str"), 10: ("list", "getitem"), 6: ("range", "frozenset"), 4: ("gen",),
+                       3: ("tuple",), 7: ("deque",), 8: ("dict",), 9: ("set",), 2: ("iteronly",)}.get(c["n"], ()):
                 cases.append(dict(c, flow=fk))
         elif c["op"] in ("reverse", "chunks") and "vk" not in c:
-            for fk in ("list", "range", "gen"):
+            for fk in FLOW_KINDS:
                 cases.append(dict(c, flow=fk))
     return cases
 
@@ -222,6 +277,118 @@ def _random_cases(rng):
                "flow": rng.choice(["iter", "list"])}
 
 
+# ---- inputs longer than any constant a rewrite might contain (16, 32, 64, 128, 256 +- 1) ---------------------------
+_LONG = (16, 17, 33, 64, 65, 129, 257)
+
+
+def _pal(L):
+    return [None, 0, 1, -1, 15, -17, L // 2, -(L // 2), L - 1, -(L - 1), L, -L, L + 1, -(L + 1)]
+
+
+def _long_cases():
+    """deterministic: the whole listed space is enumerated"""
+    for L in _LONG:
+        pal = _pal(L)
+        for a in pal:
+            for b in pal:
+                for st in (None, 2, 17):
+                    c = {"op": "slice", "start": a, "stop": b, "step": st, "n": L, "form": 3}
+                    if (pal.index(a) + pal.index(b)) % 5 == 0:
+                        c["flow"] = FLOW_KINDS[(pal.index(a) * 3 + pal.index(b)) % len(FLOW_KINDS)]
+                    yield c
+        nn = [None, 0, 1, 15, 17, L // 2, L - 1, L, L + 1]
+        for a in nn:
+            for b in nn:
+                for st in (None, 1, 3, 16):
+                    yield {"op": "fill_into", "start": a, "stop": b, "step": st, "n": L + 2}
+                yield {"op": "fill_trace", "start": a, "stop": b, "step": None, "n": L + 2, "form": 2}
+        for cs in (15, 16, 17, 33, 64):
+            for n in (cs - 1, cs, cs + 1, 2 * cs + 1, L):
+                for cont in ("tuple", "list", "star"):
+                    yield {"op": "chunks", "cs": cs, "n": n, "container": cont}
+    for n in list(range(11, 41)) + [63, 64, 65, 127, 128, 129, 255, 256, 257, 1000]:
+        yield {"op": "reverse", "n": n}
+        if n % 3 == 0:
+            yield {"op": "reverse", "n": n, "flow": FLOW_KINDS[n % len(FLOW_KINDS)]}
+    for lens in ([17], [16, 1], [15, 17, 16], [33, 0, 31], [64, 65], [0, 129], [257, 1, 0, 2]):
+        yield {"op": "chain", "lens": lens}
+        for kind in ("list", "range", "iter", "gen"):
+            for tpl in ("seq", "lock", "part"):
+                base = {"op": "sess", "el": "chain", "lens": lens, "kind": kind}
+                yield dict(base, tpl=tpl + ":long", ops=[([] if isinstance(o, list) else o)
+                                                        for o in _schedule(base, tpl, (0, 0, 0))])
+    for n in (17, 100, 257, 1000):
+        yield {"op": "countfrom", "start": -5, "step": 3, "n": n}
+        yield {"op": "countfrom", "n": n, "cf": "none"}
+    yield {"op": "sess", "el": "countfrom", "start": 0, "step": 1, "tpl": "long",
+           "ops": [[]] + [0] * 40 + [[]] + [1, 0] * 30 + [1] * 20}
+    for lens in ((40, 33, 17), (129, 65, 16)):
+        for tpl in ("seq", "lock", "part", "lock3"):
+            for a, b, st in ((-17, None, None), (None, -16, 2), (3, -33, None), (-64, -1, 3), (-40, 30, None), (16, 64, 5)):
+                base = {"op": "sess", "el": "slice", "start": a, "stop": b, "step": st}
+                yield dict(base, tpl=tpl + ":long", ops=_schedule(base, tpl, lens))
+            base = {"op": "sess", "el": "reverse"}
+            yield dict(base, tpl=tpl + ":long", ops=_schedule(base, tpl, lens))
+            for cs in (16, 17):
+                base = {"op": "sess", "el": "chunks", "cs": cs, "container": "tuple"}
+                yield dict(base, tpl=tpl + ":long", ops=_schedule(base, tpl, lens))
+
+
+def _logu(rng, hi):
+    """an integer in 0..hi, log-uniform, powers of two +-1 favoured"""
+    if rng.random() < 0.3:
+        p = 2 ** rng.randint(0, max(1, hi.bit_length() - 1))
+        return min(hi, max(0, p + rng.choice((-1, 0, 1))))
+    return int(2 ** (rng.random() * hi.bit_length())) % (hi + 1)
+
+
+def _random_long_cases(rng):
+    def ri(hi):
+        if rng.random() < 0.15:
+            return None
+        v = _logu(rng, hi)
+        return -v if rng.random() < 0.5 else v
+    for _ in range(2500):
+        r = rng.random()
+        n = _logu(rng, 1500)
+        if r < 0.35:
+            c = {"op": "slice", "start": ri(2000), "stop": ri(2000),
+                 "step": rng.choice([None, None, 1]) if rng.random() < 0.5 else max(1, _logu(rng, 300)), "n": n, "form": 3}
+            if rng.random() < 0.4:
+                c["flow"] = rng.choice(FLOW_KINDS)
+            yield c
+        elif r < 0.5:
+            a, b = ri(2000), ri(2000)
+            yield {"op": "fill_into", "start": None if a is None else abs(a), "stop": None if b is None else abs(b),
+                   "step": None if rng.random() < 0.3 else max(1, _logu(rng, 300)), "n": n}
+        elif r < 0.65:
+            c = {"op": "reverse", "n": _logu(rng, 5000)}
+            if rng.random() < 0.4:
+                c["flow"] = rng.choice(FLOW_KINDS)
+            yield c
+        elif r < 0.75:
+            yield {"op": "chunks", "cs": max(1, _logu(rng, 300)), "n": n, "container": rng.choice(["tuple", "list", "star"])}
+        elif r < 0.85:
+            lens = [_logu(rng, 600) for _ in range(rng.randint(0, 5))]
+            kind = rng.choice(["list", "tuple", "range", "iter", "gen"])
+            base = {"op": "sess", "el": "chain", "lens": lens, "kind": kind}
+            tpl = rng.choice(TEMPLATES)
+            yield dict(base, tpl=tpl + ":long", ops=[([] if isinstance(o, list) else o)
+                                                    for o in _schedule(base, tpl, (0, 0, 0))])
+        elif r < 0.9:
+            yield {"op": "countfrom", "start": rng.randint(-10 ** 6, 10 ** 6), "step": rng.randint(-1000, 1000),
+                   "n": _logu(rng, 3000)}
+        else:
+            el = rng.choice(["slice", "reverse", "chunks"])
+            base = {"op": "sess", "el": el}
+            if el == "slice":
+                base.update(start=ri(300), stop=ri(300), step=rng.choice([None, 1, 2, 17]))
+            elif el == "chunks":
+                base.update(cs=max(1, _logu(rng, 64)), container="tuple")
+            tpl = rng.choice(TEMPLATES)
+            yield dict(base, tpl=tpl + ":long", ops=_schedule(base, tpl, tuple(_logu(rng, 300) for _ in range(3))))
+
+
 # ---- the rest of iterators.py: limits of islice/deque, argument forms, ISlice, __eq__/__repr__, type checks,
 #      containers of RunningChunkBy, Chain over shared one-shot iterators ---------------------------------------
 _MS = 2 ** 63 - 1            # sys.maxsize of the platform the check runs on (asserted in run_impl)
@@ -254,7 +421,7 @@ def _ext_cases():
         for big2 in _BIG:
             yield {"op": "slice_args", "args": [big, big2], "n": 4, "ctor": "Slice"}
     # steps that are not integers: to be rejected at construction
-    for st in ("f:2.0", "f:1.5", "f:1.0", "f:0.0", "f:-1.0", "f:3.0"):
+    for st in ("f:2.0", "f:1.5", "f:1.0", "f:0.0", "f:-1.0", "f:3.0", "f:inf", "f:-inf", "f:nan", "f:1e300"):
         for a, b in ((None, None), (0, 3), (-3, 3), (-1, None), (None, -2), (1, -1)):
             yield {"op": "slice_args", "args": [a, b, st], "n": 5, "ctor": "Slice"}
     # __eq__ / __repr__
@@ -277,13 +444,18 @@ def _ext_cases():
     for a in pal:
         for b in pal:
             yield {"op": "init_check", "el": "countfrom", "start": a, "step": b}
-    for cont in ("tuple", "list", "star", "namedtuple", "set", "i:5", "s:tuple", "none"):
+    for cont in ("tuple", "list", "star", "namedtuple", "set", "list_kw", "list_truthy", "i:5", "s:tuple", "none"):
         yield {"op": "init_check", "el": "chunks", "container": cont}
     # RunningChunkBy with its containers, chunk sizes 0..6
     for cs in range(0, 7):
         for n in range(0, 11):
-            for cont in ("tuple", "list", "star", "namedtuple", "set"):
+            for cont in ("tuple", "list", "star", "namedtuple", "set", "list_kw", "list_truthy", "list_truthy2",
+                         "tuple_falsy", "star_falsy"):
                 yield {"op": "chunks_c", "cs": cs, "n": n, "container": cont, "vals": "int"}
+                if n == 7 and cont in ("tuple", "list_kw", "star"):
+                    yield {"op": "chunks_c", "cs": cs, "n": n, "container": cont, "vals": "int", "cskw": True}
+                    for fk in ("deque", "dict", "getitem", "iteronly"):
+                        yield {"op": "chunks_c", "cs": cs, "n": n, "container": cont, "vals": "int", "flow": fk}
                 if n in (5, 8):
                     yield {"op": "chunks_c", "cs": cs, "n": n, "container": cont, "vals": "dup"}
     # CountFrom beyond 64 bits
@@ -377,6 +549,12 @@ def _reuse_cases():
                 cases.append(dict(base, tpl="seq", fk="list", ops=_schedule(base, "seq", (8, 5))))
                 cases.append(dict(base, tpl="lock", fk="range", ops=_schedule(base, "lock", (6, 9))))
                 cases.append(dict(base, tpl="part", fk="gen", ops=_schedule(base, "part", (7, 7))))
+                if st in (None, 2):
+                    cases.append(dict(base, tpl="seq", fk="deque", ops=_schedule(base, "seq", (9, 6))))
+                    cases.append(dict(base, tpl="lock", fk="set", ops=_schedule(base, "lock", (7, 8))))
+                    cases.append(dict(base, tpl="part", fk="getitem", ops=_schedule(base, "part", (8, 4))))
+                    cases.append(dict(base, tpl="idle", fk="dict", ops=_schedule(base, "idle", (5, 9))))
+                    cases.append(dict(base, tpl="seq", fk="iteronly", ops=_schedule(base, "seq", (6, 10))))
     # Reverse, RunningChunkBy
     for tpl in TEMPLATES:
         for n1 in range(0, 6):
@@ -385,14 +563,16 @@ def _reuse_cases():
                 base = {"op": "sess", "el": "reverse"}
                 cases.append(dict(base, tpl=tpl, ops=_schedule(base, tpl, lens)))
                 if n1 == 4:
-                    cases.append(dict(base, tpl=tpl, fk="list", ops=_schedule(base, tpl, lens)))
+                    for fk in ("list", "deque", "set", "dict", "iteronly", "getitem"):
+                        cases.append(dict(base, tpl=tpl, fk=fk, ops=_schedule(base, tpl, lens)))
         for cs in range(1, 6):
             for cont in ("tuple", "list", "star"):
                 for lens in ((7, 4, 5), (3, 8, 6), (6, 6, 1), (0, 5, 9)):
                     base = {"op": "sess", "el": "chunks", "cs": cs, "container": cont}
                     cases.append(dict(base, tpl=tpl, ops=_schedule(base, tpl, lens)))
                     if cont == "tuple":
-                        cases.append(dict(base, tpl=tpl, fk="range", ops=_schedule(base, tpl, lens)))
+                        for fk in ("range", "deque", "frozenset", "getitem"):
+                            cases.append(dict(base, tpl=tpl, fk=fk, ops=_schedule(base, tpl, lens)))
     # Chain over re-iterable iterables (every call sees all values) and over one-shot iterators shared by the calls
     for lens in list(itertools.product(range(0, 4), repeat=3)) + [()]:
         for kind in ("list", "tuple", "range", "iter", "gen"):
@@ -405,6 +585,16 @@ def _reuse_cases():
     for a, st in ((0, 1), (-3, -2), (5, 3), (2, 0)):
         for ops in scheds:
             cases.append({"op": "sess", "el": "countfrom", "start": a, "step": st, "tpl": "all", "ops": ops})
+    for shape in ("none", "pos1", "kw", "kwstep"):
+        base = {"op": "sess", "el": "countfrom", "cf": shape}
+        if shape in ("pos1", "kw"):
+            base["start"] = 4
+        if shape in ("kw", "kwstep"):
+            base["step"] = 3
+        for tpl in TEMPLATES:
+            cases.append(dict(base, tpl=tpl, ops=[([] if isinstance(o, list) else o)
+                                                  for o in _schedule(base, tpl, (0, 0, 0))]))
+        cases.append(dict(base, op="twins", n=6, n2=4))
     for a in (-3, 0, 5, 10):
         for st in (-2, -1, 0, 1, 2, 3):
             base = {"op": "sess", "el": "countfrom", "start": a, "step": st}
@@ -431,12 +621,15 @@ def _reuse_cases():
     for a in nn:
         for b in nn:
             for st in [None, 1, 2, 3, 4]:
-                for n in range(0, 11):
-                    cases.append({"op": "fill_trace", "start": a, "stop": b, "step": st, "n": n})
-                cases.append({"op": "fill2", "start": a, "stop": b, "step": st, "n": 10, "n2": 7})
-                for pat in SLICE_INST_PATTERNS:
-                    cases.append({"op": "slice_inst", "start": a, "stop": b, "step": st, "pat": pat,
-                                  "ops": _slice_inst_ops(pat)})
+                forms = [3] + ([2] if st is None else []) + ([1] if st is None and a is None else [])
+                for form in forms:
+                    fm = {} if form == 3 else {"form": form}
+                    for n in (range(0, 11) if form == 3 else (0, 4, 9)):
+                        cases.append(dict({"op": "fill_trace", "start": a, "stop": b, "step": st, "n": n}, **fm))
+                    cases.append(dict({"op": "fill2", "start": a, "stop": b, "step": st, "n": 10, "n2": 7}, **fm))
+                    for pat in SLICE_INST_PATTERNS:
+                        cases.append(dict({"op": "slice_inst", "start": a, "stop": b, "step": st, "pat": pat,
+                                           "ops": _slice_inst_ops(pat)}, **fm))
     for a, b in ((-3, None), (None, -2), (-5, 4), (2, -1), (-4, -1)):
         for st in (None, 2):
             for pat in SLICE_INST_PATTERNS:
@@ -531,6 +724,70 @@ def _args(case):
     return (a, b, s)
 
 
+def _triple(case):
+    """(start, stop, step) that the call form of the case means"""
+    form = case.get("form", 3)
+    if form == 1:
+        return None, case["stop"], None
+    if form == 2:
+        return case["start"], case["stop"], None
+    return case["start"], case["stop"], case["step"]
+
+
+def _cf_call(ctor, case):
+    """CountFrom / itertools.count called in the shape the case asks for: both arguments (default), none, one,
+    by keyword, step only"""
+    a, s, shape = case.get("start"), case.get("step"), case.get("cf", "pos2")
+    if shape == "none":
+        return ctor()
+    if shape == "pos1":
+        return ctor(a)
+    if shape == "kw":
+        return ctor(start=a, step=s)
+    if shape == "kwstep":
+        return ctor(step=s)
+    return ctor(a, s)
+
+
+def _cf_eff(case):
+    """the (start, step) such a call means"""
+    shape = case.get("cf", "pos2")
+    return {"none": (0, 1), "pos1": (case.get("start"), 1), "kwstep": (0, case.get("step"))}.get(
+        shape, (case.get("start"), case.get("step")))
+
+
+class _IterOnly:
+    """an iterable that has nothing but __iter__"""
+    def __init__(self, xs):
+        self._xs = list(xs)
+
+    def __iter__(self):
+        return iter(self._xs)
+
+
+class _GetItemOnly:
+    """an iterable through the old sequence protocol: __getitem__ and __len__, no __iter__, no slicing"""
+    def __init__(self, xs):
+        self._xs = list(xs)
+
+    def __len__(self):
+        return len(self._xs)
+
+    def __getitem__(self, i):
+        if not isinstance(i, int):
+            raise TypeError("indices must be integers")
+        if i < 0:
+            raise IndexError(i)
+        return self._xs[i]
+
+
+def _fvals(case, key="flow"):
+    """the values of the case's flow in the order its flow object yields them"""
+    kind = case.get(key)
+    vals = _vals(case)
+    return vals if kind in (None, "iter", "list", "tuple", "range", "gen") else list(_mk_flow(kind, vals))
+
+
 class _Store:
     def __init__(self):
         self.vals = []
@@ -556,7 +813,7 @@ def run_impl(case):
     if op == "fill_into":
         xs = _vals(case)
         try:
-            sl = lena.flow.Slice(case["start"], case["stop"], case["step"])
+            sl = lena.flow.Slice(*_args(case))
         except Exception as e:
             return {"e": exc_name(e), "phase": "init"}
         st = _Store()
@@ -586,7 +843,7 @@ def run_impl(case):
             return {"e": exc_name(e), "phase": "run"}
     if op == "countfrom":
         try:
-            return {"r": list(itertools.islice(lena.flow.CountFrom(case["start"], case["step"])(), case["n"]))}
+            return {"r": list(itertools.islice(_cf_call(lena.flow.CountFrom, case)(), case["n"]))}
         except Exception as e:
             return {"e": exc_name(e), "phase": "run"}
     if op == "chunks":
@@ -621,15 +878,15 @@ def run_impl(case):
         return _play_twins(case, sp1, sp2)
     if op == "fill_trace":
         try:
-            sl = lena.flow.Slice(case["start"], case["stop"], case["step"])
+            sl = lena.flow.Slice(*_args(case))
         except Exception as e:
             return {"e": exc_name(e), "phase": "init"}
         st = _Store()
         return {"out": [_fill_once(sl, st, x) for x in _vals(case)], "r": _encs(st.vals)}
     if op == "fill2":
         try:
-            sl1 = lena.flow.Slice(case["start"], case["stop"], case["step"])
-            sl2 = lena.flow.Slice(case["start"], case["stop"], case["step"])
+            sl1 = lena.flow.Slice(*_args(case))
+            sl2 = lena.flow.Slice(*_args(case))
         except Exception as e:
             return {"e": exc_name(e), "phase": "init"}
         xs1, xs2 = _flow(0, case["n"]), _flow(1, case["n2"])
@@ -643,7 +900,7 @@ def run_impl(case):
         return {"a": {"r": _encs(st1.vals), "stop": stop1}, "b": {"r": _encs(st2.vals), "stop": stop2}}
     if op == "slice_inst":
         try:
-            sl = lena.flow.Slice(case["start"], case["stop"], case["step"])
+            sl = lena.flow.Slice(*_args(case))
         except Exception as e:
             return {"e": exc_name(e), "phase": "init"}
         ev, filled = [], []
@@ -658,8 +915,7 @@ def run_impl(case):
                 st = _Store()
                 ev.append(_fill_once(sl, st, o))
                 filled.extend(st.vals)
-        state = [sl._index, sl._next_index + 1] if hasattr(sl, "_index") else None
-        return {"ev": ev, "filled": _encs(filled), "state": state}
+        return {"ev": ev, "filled": _encs(filled)}
     if op == "slice_args":
         import sys
         import warnings
@@ -702,16 +958,24 @@ def run_impl(case):
             a, b = _dec(case["start"]), _dec(case["step"])
             return {"r": attempt(lambda: lena.flow.CountFrom(a, b)), "ref": attempt(lambda: itertools.count(a, b))}
         cont = _container(case["container"], 2)
-        return {"r": attempt(lambda: lena.flow.RunningChunkBy(2, *cont))}
+        return {"r": attempt(lambda: lena.flow.RunningChunkBy(2, *cont, **getattr(cont, "kw", {})))}
     if op == "chunks_c":
         cont = _container(case["container"], case["cs"])
         xs = _cvals(case)
         try:
-            el = lena.flow.RunningChunkBy(case["cs"], *cont)
+            if case.get("cskw"):        # everything by keyword
+                kw = dict(getattr(cont, "kw", {}))
+                if len(cont) > 0:
+                    kw["container"] = cont[0]
+                if len(cont) > 1:
+                    kw["from_iterable"] = cont[1]
+                el = lena.flow.RunningChunkBy(chunk_size=case["cs"], **kw)
+            else:
+                el = lena.flow.RunningChunkBy(case["cs"], *cont, **getattr(cont, "kw", {}))
         except Exception as e:
             return {"e": exc_name(e), "phase": "init"}
         try:
-            chunks = list(el.run(iter(xs)))
+            chunks = list(el.run(_mk_flow(case.get("flow"), xs)))
         except Exception as e:
             return {"e": exc_name(e), "phase": "run"}
         return {"r": [_enc_chunk(case["container"], cont, c) for c in chunks]}
@@ -730,7 +994,26 @@ def _mk_flow(kind, xs):
         return range(xs[0], xs[-1] + 1) if len(xs) else range(0)
     if kind == "gen":
         return (x for x in xs)
+    # sized but not sliceable, or neither (the values of such cases are distinct small integers)
+    if kind == "deque":
+        import collections
+        return collections.deque(xs)
+    if kind == "dict":
+        return dict.fromkeys(xs)
+    if kind == "set":
+        return set(xs)
+    if kind == "frozenset":
+        return frozenset(xs)
+    if kind == "str":
+        return "".join(chr(97 + x % 26) for x in xs)
+    if kind == "iteronly":
+        return _IterOnly(xs)
+    if kind == "getitem":
+        return _GetItemOnly(xs)
     raise ValueError(kind)
+
+
+FLOW_KINDS = ("list", "tuple", "range", "gen", "deque", "dict", "set", "frozenset", "str", "iteronly", "getitem")
 
 
 def _dec(v):
@@ -757,13 +1040,31 @@ def _dec(v):
 _NT = {}
 
 
+class _KwArgs(tuple):
+    """positional arguments of RunningChunkBy after chunk_size, plus keyword arguments in .kw"""
+    kw = {}
+
+
 def _container(name, cs):
-    """positional arguments (container[, from_iterable]) of RunningChunkBy for a container name"""
+    """arguments (container[, from_iterable]) of RunningChunkBy for a container name: a tuple of positional
+    arguments; keyword arguments, if any, in its attribute kw"""
     import collections
     if name == "tuple":
         return (tuple,)
     if name == "list":
         return (list, True)
+    if name == "list_kw":           # RunningChunkBy(cs, container=list, from_iterable=True)
+        r = _KwArgs()
+        r.kw = {"container": list, "from_iterable": True}
+        return r
+    if name == "list_truthy":       # from_iterable is any true value (bool(from_iterable))
+        return (list, 1)
+    if name == "list_truthy2":
+        return (list, "yes")
+    if name == "tuple_falsy":
+        return (tuple, 0)
+    if name == "star_falsy":
+        return (lambda *a: list(a), "")
     if name == "star":
         return (lambda *a: list(a),)
     if name == "namedtuple":
@@ -777,9 +1078,9 @@ def _container(name, cs):
 
 def _enc_chunk(name, cont, c):
     """a chunk as the model tags it: tuple / list (also what container(*chunk) builds) / set (ascending)"""
-    if name == "tuple":
+    if name in ("tuple", "tuple_falsy"):
         ok, k, v = type(c) is tuple, "tuple", list(c)
-    elif name in ("list", "star"):
+    elif name in ("list", "star", "list_kw", "list_truthy", "list_truthy2", "star_falsy"):
         ok, k, v = type(c) is list, "list", list(c)
     elif name == "namedtuple":
         ok, k, v = type(c) is cont[0], "list", list(c)
@@ -859,7 +1160,7 @@ def _real_spawner(case):
         sp.its = its
         return sp
     if el == "countfrom":
-        cf = lena.flow.CountFrom(case["start"], case["step"])
+        cf = _cf_call(lena.flow.CountFrom, case)
         return lambda flow: cf()
     raise ValueError(el)
 
@@ -868,21 +1169,24 @@ def _ref_spawner(case):
     """The Python reference named by the property, per call: xs[start:stop:step], reversed(list(xs)), the sliding
     windows, itertools.chain(*iterables), itertools.count(start, step)."""
     el = case["el"]
+    fk = case.get("fk")
+    def order(flow):
+        return list(_mk_flow(fk, flow))
     if el == "slice":
-        return lambda flow: iter(list(flow)[case["start"]:case["stop"]:case["step"]])
+        return lambda flow: iter(order(flow)[case["start"]:case["stop"]:case["step"]])
     if el == "reverse":
-        return lambda flow: reversed(list(flow))
+        return lambda flow: reversed(order(flow))
     if el == "chunks":
         cs = case["cs"]
         conv = tuple if case["container"] == "tuple" else list
-        return lambda flow: iter([conv(flow[i:i + cs]) for i in range(0, len(flow) - cs + 1)])
+        return lambda flow: iter([conv(order(flow)[i:i + cs]) for i in range(0, len(flow) - cs + 1)])
     if el == "chain":
         its = _chain_iterables(case)
         sp = lambda flow: itertools.chain(*its)
         sp.its = its
         return sp
     if el == "countfrom":
-        return lambda flow: itertools.count(case["start"], case["step"])
+        return lambda flow: _cf_call(itertools.count, case)
     raise ValueError(el)
 
 
@@ -962,14 +1266,15 @@ def model_requests(case):
             reqs.append({"op": "spec", "start": a, "stop": b, "step": s})
         return reqs
     if op == "fill_into":
-        return [{"op": "fill_into", "start": case["start"] or 0, "stop": case["stop"], "step": case["step"] or 1,
-                 "xs": list(range(case["n"]))}]
+        # the arguments go to the model as they go to Slice: the None defaults are the model's business (mkSliceInst)
+        return [{"op": "fill_into_o", "args": list(_args(case)), "xs": list(range(case["n"]))}]
     if op == "reverse":
         return [{"op": "reverse", "xs": list(range(case["n"]))}]
     if op == "chain":
         return [{"op": "chain", "xss": _chain_xss(case)}]
     if op == "countfrom":
-        return [{"op": "countfrom", "start": case["start"], "step": case["step"], "n": case["n"]}]
+        a, st = _cf_eff(case)
+        return [{"op": "countfrom", "start": a, "step": st, "n": case["n"]}]
     if op == "chunks":
         xs = list(range(case["n"]))
         return [{"op": "chunks", "cs": case["cs"], "xs": xs}, {"op": "windows", "cs": case["cs"], "xs": xs}]
@@ -985,7 +1290,12 @@ def model_requests(case):
                 return [{"op": "session", "el": "chain_shared", "xss": _chain_xss(case), "ops": case["ops"]}]
             req.update(xss=_chain_xss(case))
         elif el == "countfrom":
-            req.update(start=case["start"], step=case["step"], tail=3)
+            a, st = _cf_eff(case)
+            req.update(start=a, step=st, tail=3)
+        fk = case.get("fk")
+        if fk not in (None, "iter", "list", "tuple", "range", "gen"):
+            # the flow as its object yields it (sets, dicts)
+            req["ops"] = [list(_mk_flow(fk, o)) if isinstance(o, list) else o for o in case["ops"]]
         return [req]
     if op == "twins":
         el = case["el"]
@@ -1000,20 +1310,22 @@ def model_requests(case):
         if el == "chain":
             return [{"op": "chain", "xss": _chain_xss(case)}] * 2
         if el == "countfrom":
-            return [{"op": "countfrom", "start": case["start"], "step": case["step"], "n": 5}] * 2
+            a, st = _cf_eff(case)
+            return [{"op": "countfrom", "start": a, "step": st, "n": 5}] * 2
         raise ValueError(el)
     if op == "fill_trace":
-        return [{"op": "fill_trace", "start": case["start"] or 0, "stop": case["stop"], "step": case["step"] or 1,
-                 "xs": list(range(case["n"]))}]
+        return [{"op": "fill_trace_o", "args": list(_args(case)), "xs": list(range(case["n"]))}]
     if op == "fill2":
-        return [{"op": "fill_into", "start": case["start"] or 0, "stop": case["stop"], "step": case["step"] or 1,
-                 "xs": f} for f in (_flow(0, case["n"]), _flow(1, case["n2"]))]
+        return [{"op": "fill_into_o", "args": list(_args(case)), "xs": f}
+                for f in (_flow(0, case["n"]), _flow(1, case["n2"]))]
     if op == "slice_inst":
-        return [{"op": "slice_inst", "start": case["start"], "stop": case["stop"], "step": case["step"],
-                 "ops": case["ops"]}]
+        return [{"op": "slice_inst", "args": list(_args(case)), "ops": case["ops"]}]
     if op == "slice_args":
         if any(isinstance(a, str) for a in case["args"]):
-            return []           # a step that is not an integer: the model has integers only; oracle only
+            args = case["args"]
+            if len(args) == 3 and not any(isinstance(a, str) for a in args[:2]):
+                return [{"op": "slice_step", "start": args[0], "stop": args[1], "stepkind": "float", "ms": _MS}]
+            return []
         return [{"op": "slice_args", "args": case["args"], "xs": list(range(case["n"])), "ms": _MS}]
     if op == "eqrepr":
         return [{"op": "eqrepr", "el": case["el"], "a": case["a"], "b": case["b"]}]
@@ -1022,9 +1334,12 @@ def model_requests(case):
             import numbers
             return [{"op": "init_check", "el": "countfrom",
                      "num": [isinstance(_dec(case[k]), numbers.Number) for k in ("start", "step")]}]
-        return [{"op": "init_check", "el": "chunks", "callable": callable(_container(case["container"], 2)[0])}]
+        cont = _container(case["container"], 2)
+        target = cont[0] if len(cont) else cont.kw["container"]
+        return [{"op": "init_check", "el": "chunks", "callable": callable(target)}]
     if op == "chunks_c":
-        cont = {"namedtuple": "star"}.get(case["container"], case["container"])
+        cont = {"namedtuple": "star", "list_kw": "list", "list_truthy": "list", "list_truthy2": "list",
+                "tuple_falsy": "tuple", "star_falsy": "star"}.get(case["container"], case["container"])
         return [{"op": "chunks_c", "cs": case["cs"], "xs": _cvals(case), "container": cont},
                 {"op": "windows", "cs": case["cs"], "xs": _cvals(case)}]
     raise ValueError(op)
@@ -1032,9 +1347,11 @@ def model_requests(case):
 
 def _map_model(case, m):
     """The model runs on the positions 0..n-1; translate its answer to the values of this case's flow."""
-    if case.get("vk", "int") == "int" or "r" not in m or case["op"] not in ("slice", "fill_into", "reverse", "chunks"):
+    if "r" not in m or case["op"] not in ("slice", "fill_into", "reverse", "chunks"):
         return m
-    vals = _vals(case)
+    if case.get("vk", "int") == "int" and case.get("flow") in (None, "iter", "list", "tuple", "range", "gen"):
+        return m
+    vals = _fvals(case)
     def tr(r):
         return [tr(x) for x in r] if isinstance(r, list) else _enc(vals[r])
     return dict(m, r=tr(m["r"]))
@@ -1045,17 +1362,17 @@ def compare(case, res, replies):
     m = replies[0]
     if "err" in m:
         return f"model driver error: {m['err']}"
-    m = _map_model(case, m)
     if op in ("sess", "twins", "fill_trace", "fill2", "slice_inst"):
         return _compare_reuse(case, res, replies)
     if op in ("slice_args", "eqrepr", "init_check", "chunks_c"):
         return _compare_ext(case, res, replies)
+    m = _map_model(case, m)
     if "e" in res and op not in ("slice",):
         return f"impl raised {res} vs model {m}"
     if op == "slice":
         if "e" in res or "e" in m:
-            if res.get("e") != m.get("e"):
-                return f"impl {res} vs model {m}"
+            if res.get("e") != m.get("e") or (m.get("e") == "LenaValueError" and res.get("phase") != "init"):
+                return f"impl {res} vs model {m} (LenaValueError is raised at construction)"
         elif res["r"] != m["r"]:
             return f"impl {res['r']} vs model {m['r']}"
         if len(replies) > 1 and "r" in replies[1]:
@@ -1071,10 +1388,19 @@ def compare(case, res, replies):
                 return f"Lean goodStepB/hasNegB {sp} differ from the Python predicates {want}"
         return None
     if op == "fill_into":
-        if "e" in res:
-            return f"impl raised {res}"
+        if "e" in res or "e" in m:
+            return f"impl {res} vs model {m}"
         if res["r"] != m["r"] or res["stop"] != m["stop"]:
             return f"impl {res} vs model {m}"
+        # stopIdx (theorem stopfill_exact) against its Python formula and against where the real code raised
+        a, b, st = _triple(case)
+        if b is not None:
+            a0, s0 = a or 0, st or 1
+            want = 0 if b <= a0 else a0 + ((b - a0 - 1) // s0) * s0 + 1
+            if m["stopidx"] != want:
+                return f"Lean stopIdx {m['stopidx']} differs from the Python formula {want}"
+            if res["stop"] != (want if want < case["n"] else None):
+                return f"LenaStopFill raised at {res['stop']}, stopIdx says {want} (flow of {case['n']} values)"
         return None
     if op == "chunks":
         if res["r"] != m["r"]:
@@ -1134,10 +1460,9 @@ def _compare_reuse(case, res, replies):
         mev = ["Other:AttributeError" if e == "AttributeError" else e for e in m["ev"]]
         if res["ev"] != mev:
             return f"impl {res['ev']} vs model {mev}"
-        if res["state"] is not None:
-            if res["state"] != m["state"]:
-                return f"impl (_index, _next_index+1) = {res['state']} vs model fill state {m['state']}"
-            outs = [e for e in res["ev"] if isinstance(e, str)]
+        # observable behaviour only (no private attributes): the outcomes of the fill_into calls
+        outs = [e for e in res["ev"] if isinstance(e, str)]
+        if not any(v is not None and v < 0 for v in _triple(case)[:2]):
             if m["fo"] != outs or m["ft"] != outs:
                 return f"Lean fillOutcomes {m['fo']} / fillTrace over fillValues {m['ft']} vs fill_into outcomes {outs}"
         return None
@@ -1154,6 +1479,10 @@ def _compare_ext(case, res, replies):
         if "err" in r:
             return f"model driver error: {r['err']}"
     if op == "slice_args":
+        if "repr" not in m:     # a float step: the model says LenaValueError at construction (mkSliceStepArg)
+            if (res.get("e"), res.get("phase")) != ("LenaValueError", "init"):
+                return f"impl {res} vs model {m}"
+            return None
         if "e" in m:
             want = _MODEL_EXC[m["e"]]
             if (res.get("e"), res.get("phase")) != want:
@@ -1187,7 +1516,7 @@ def _compare_ext(case, res, replies):
 
 
 def _windows(case, vals=False):
-    xs, cs = (_encs(_vals(case)) if vals else list(range(case["n"]))), case["cs"]
+    xs, cs = (_encs(_fvals(case)) if vals else list(range(case["n"]))), case["cs"]
     return [xs[i:i + cs] for i in range(0, len(xs) - cs + 1)]
 
 
@@ -1203,15 +1532,15 @@ def oracle(case, res):
             return None
         fk = f" given as a {case['flow']}" if case.get("flow") else ""
         if "e" in res:
-            return f"Slice{_args(case)} raised {res} on flow {_vals(case)}{fk}"
-        ref = _encs(_vals(case)[case["start"]:case["stop"]:s])
+            return f"Slice{_args(case)} raised {res} on flow {_fvals(case)}{fk}"
+        ref = _encs(_fvals(case)[case["start"]:case["stop"]:s])
         if res["r"] != ref:
-            return f"Slice{_args(case)}.run({_vals(case)}{fk}) = {res['r']} but xs[start:stop:step] = {ref}"
+            return f"Slice{_args(case)}.run({_fvals(case)}{fk}) = {res['r']} but xs[start:stop:step] = {ref}"
         return None
     if op == "fill_into":
         if "e" in res:
             return f"fill_into raised {res}"
-        a, b, s = case["start"], case["stop"], case["step"]
+        a, b, s = _triple(case)
         ref = _encs(_vals(case)[a:b:s])
         st = res["stop"]
         # values filled before the stop signal must be the slice of the prefix fed so far, and
@@ -1236,14 +1565,17 @@ def oracle(case, res):
     if "e" in res:
         return f"{op} raised {res} (case {case})"
     if op == "reverse":
-        ref = _encs(reversed(_vals(case)))
-        return None if res["r"] == ref else f"Reverse gives {res['r']}, reversed(list(xs)) = {ref}"
+        ref = _encs(reversed(_fvals(case)))
+        fk = f" (flow given as a {case['flow']})" if case.get("flow") else ""
+        return None if res["r"] == ref else f"Reverse gives {res['r']}, reversed(list(xs)) = {ref}{fk}"
     if op == "chain":
         ref = list(itertools.chain(*_chain_xss(case)))
         return None if res["r"] == ref else f"Chain gives {res['r']}, itertools.chain = {ref}"
     if op == "countfrom":
-        ref = list(itertools.islice(itertools.count(case["start"], case["step"]), case["n"]))
-        return None if res["r"] == ref else f"CountFrom gives {res['r']}, itertools.count = {ref}"
+        ref = list(itertools.islice(_cf_call(itertools.count, case), case["n"]))
+        shape = {"none": "()", "pos1": f"({case.get('start')})", "kw": f"(start={case.get('start')}, step={case.get('step')})",
+                 "kwstep": f"(step={case.get('step')})"}.get(case.get("cf"), f"({case.get('start')}, {case.get('step')})")
+        return None if res["r"] == ref else f"CountFrom{shape} gives {res['r']}, itertools.count{shape} = {ref}"
     if op == "chunks":
         ref = _windows(case, vals=True)
         return None if res["r"] == ref else f"RunningChunkBy({case['cs']}) gives {res['r']}, windows = {ref}"
@@ -1301,7 +1633,7 @@ def _oracle_ext(case, res):
         if "e" in res:
             return f"RunningChunkBy({cs}, {case['container']}) raised {res}"
         xs = _cvals(case)
-        kind = {"tuple": "tuple", "list": "list", "star": "list", "namedtuple": "list", "set": "set"}[case["container"]]
+        kind = {"tuple": "tuple", "tuple_falsy": "tuple", "set": "set"}.get(case["container"], "list")
         ref = [{"k": kind, "v": sorted(set(xs[i:i + cs])) if kind == "set" else xs[i:i + cs]}
                for i in range(0, len(xs) - cs + 1)]
         if res["r"] != ref:
@@ -1325,7 +1657,10 @@ def _el_text(case):
         return f"RunningChunkBy({case['cs']}, container kind {case['container']})"
     if el == "chain":
         return f"Chain(*{_chain_xss(case)} as {case.get('kind', 'list')}s)"
-    return f"CountFrom({case['start']}, {case['step']})"
+    shape = case.get("cf", "pos2")
+    return {"none": "CountFrom()", "pos1": f"CountFrom({case.get('start')})",
+            "kw": f"CountFrom(start={case.get('start')}, step={case.get('step')})",
+            "kwstep": f"CountFrom(step={case.get('step')})"}.get(shape, f"CountFrom({case.get('start')}, {case.get('step')})")
 
 
 def _per_gen(ev, rest):
@@ -1392,7 +1727,7 @@ def _oracle_reuse(case, res):
             return None
         return (f"two {_el_text(case)} instances used in turn yielded {res['a']} and {res['b']}, the references "
                 f"{_REF_NAME[case['el']]} give {ref['a']} and {ref['b']}")
-    a, b, s = case["start"], case["stop"], case["step"]
+    a, b, s = _triple(case)
     if op == "fill_trace":
         fed = _vals(case)
         ref = _encs(fed[a:b:s])
@@ -1461,35 +1796,39 @@ def classify(case, res):
         a, b = case["start"], case["stop"]
         def k(v):
             return "N" if v is None else ("-" if v < 0 else "+")
-        return [f"slice:{k(a)}{k(b)}:step={'N' if case['step'] is None else min(case['step'], 5)}",
-                "slice:" + ("error" if "e" in res else ("empty" if not res["r"] else "nonempty"))]
+        return [f"slice:{k(a)}{k(b)}", f"slice:step={'N' if case['step'] is None else min(case['step'], 5)}",
+                "slice:" + ("error" if "e" in res else ("empty" if not res["r"] else "nonempty")),
+                "flow:" + case.get("flow", "iter")] + (["long"] if case["n"] > 14 else [])
     if op == "fill_into":
-        return ["fill_into:" + ("stopfill" if res.get("stop") is not None else "nostop")]
+        return ["fill_into:" + ("stopfill" if res.get("stop") is not None else "nostop"),
+                "fill_into:form%d" % case.get("form", 3)]
     if op == "sess":
-        return [f"sess:{case['el']}:{case.get('tpl')}"]
+        return [f"sess:{case['el']}", "flow:" + case.get("fk", "iter")] + \
+               (["cf:" + case["cf"]] if "cf" in case else [])
     if op == "twins":
-        return [f"twins:{case['el']}"]
+        return ["twins"]
     if op == "slice_inst":
-        return ["slice_inst:" + case.get("pat", "?")]
+        return ["slice_inst:form%d" % case.get("form", 3)]
     if op == "slice_args":
         big = any(isinstance(a, int) and abs(a) >= _MS for a in case["args"])
-        return [f"slice_args:{case['ctor']}:{len(case['args'])}" + (":big" if big else ""),
+        return [f"slice_args:{case['ctor']}" + (":big" if big else ""),
                 "slice_args:" + (res.get("e", "ok") + ":" + res.get("phase", ""))]
     if op in ("eqrepr", "init_check"):
-        return [f"{op}:{case['el']}"]
+        return [op]
     if op == "chunks_c":
-        return [f"chunks_c:{case['container']}"]
+        return ["chunks_c"]
+    if op in ("fill_trace", "fill2"):
+        return [f"{op}:form{case.get('form', 3)}"]
+    if op == "countfrom":
+        return ["countfrom:" + case.get("cf", "pos2")]
+    if op in ("reverse", "chunks"):
+        return [op, "flow:" + case.get("flow", "iter")]
     return [op]
 
 
 def signature(case, failure):
-    neg = any(isinstance(v, int) and v < 0 for v in
-              ([case.get("start"), case.get("stop")] if "args" not in case else case["args"][:2]))
-    if neg and (case.get("flow") or case.get("fk")) in ("list", "tuple", "range"):
-        return "slice-negative-index-container-flow"            # notes/C17_defect_1
-    if neg and case.get("op") == "slice_args" and len(case["args"]) == 3 and \
-            (isinstance(case["args"][2], str) or (isinstance(case["args"][2], int) and case["args"][2] > _MS)):
-        return "slice-negative-index-step-not-validated"        # notes/C17_defect_2
+    if case.get("op") == "slice_args" and len(case["args"]) == 3 and case["args"][2] in ("f:inf", "f:nan"):
+        return "slice-step-inf-nan-wrong-exception"             # notes/C17_defect_3 (exactly these two steps)
     c = dict(case)
     if "ops" in c:
         # one report per element configuration and schedule family, not per schedule
@@ -1534,12 +1873,15 @@ LEVEL_TEXT = ("Lean 4 theorems about a transcribed model of Slice/Reverse/Chain/
               "indices, steps and finite flows (no bound); the model is tied to /repo by a correspondence check that "
               "enumerates the property's whole stated scope (start,stop in {None,-7..7}, step in {None,1..4}, len 0..10; "
               "fill_into for all non-negative combinations) on every run, plus a direct Python-slicing oracle on the real code. "
-              "Repeated and interleaved use of one instance is modelled as a state machine (sessions): theorems say that every "
-              "call/run equals the reference whatever the history; the correspondence and the oracle drive the real elements "
-              "through the same schedules. The rest of the anchored code is modelled too (Model/C17Ext.lean): the sys.maxsize limits "
+              "Repeated and interleaved use of one instance is modelled as a state machine (sessions): one theorem says that "
+              "generators advanced in any interleaving are independent provided creating one leaves the instance unchanged; "
+              "that the real elements satisfy the proviso is established by the correspondence and the oracle, which drive "
+              "them through the same schedules (not by a theorem: in the model it holds by transcription). The rest of the anchored code is modelled too (Model/C17Ext.lean): the sys.maxsize limits "
               "of islice/deque, the call forms and ISlice, __eq__/__repr__, type checks at construction, the containers of "
               "RunningChunkBy, Chain over one-shot iterators shared by all calls (conservation theorem).")
 LEVEL_NOTE = ("Trusted: Lean kernel (+ propext, Classical.choice, Quot.sound), the hand transcription validated by the "
-              "exhaustive-in-scope correspondence run, itertools/deque semantics as transcribed, the JSON protocol.")
+              "exhaustive-in-scope correspondence run, itertools/deque semantics as transcribed, the JSON protocol. "
+              "THEOREMS lists the 30 theorems that carry the property; 24 structural/bridging/definitional lemmas are in "
+              "AUX_THEOREMS (audited, not counted). Statelessness of the real elements between runs is checked, not proved.")
 TECHNIQUE = "Lean 4 proof over hand-written model + exhaustive-in-scope correspondence check"
 DESIGN_REF = "DESIGN.md section 3, C17"
